@@ -1147,3 +1147,79 @@ func rulePrecisionBound(c *Ctx, r *Report) {
 		r.OK("ytypes.sanitizeGNMI:precision-use", c.Pos(f.Decl.Pos()), "the precision is not used")
 	}
 }
+
+// ---- R-OM-DISJOINT (C05) -----------------------------------------------------------------------
+
+// ruleOMDisjoint: two ordered lists may be merged when src is an in-order subset of dst or the two
+// are disjoint. "Disjoint" is a statement about every key of src; the in-order scan counter being
+// zero only says that the first key of src was not found.
+func ruleOMDisjoint(c *Ctx, r *Report) {
+	r.Rule("R-OM-DISJOINT", "ygot.orderedMapKeysMergeable accepts the merge only when its in-order scan matched every key of src, or under a disjointness flag computed by a loop over all keys of src against the keys of dst; the scan counter being zero is not evidence of disjointness", 1)
+	f := c.MustFunc(r, "ygot", "orderedMapKeysMergeable")
+	if f == nil {
+		return
+	}
+	info := f.Info()
+	n := 0
+	for _, rs := range returnsOf(f.Decl.Body) {
+		if len(rs.Results) != 1 || !isNilIdent(info, rs.Results[0]) {
+			continue
+		}
+		for _, ft := range c.FactsAt(f, rs, false) {
+			if !ft.Pos {
+				continue
+			}
+			var conds []ast.Expr
+			switch ft.Kind {
+			case "cond":
+				conds = []ast.Expr{ft.Cond}
+			}
+			_ = conds
+		}
+		// the case clause (or if) that leads to this success return.
+		pm := c.parentMap(f.File)
+		var guards []ast.Expr
+		for p := pm[ast.Node(rs)]; p != nil; p = pm[p] {
+			if cc, ok := p.(*ast.CaseClause); ok {
+				guards = cc.List
+				break
+			}
+			if is, ok := p.(*ast.IfStmt); ok {
+				guards = []ast.Expr{is.Cond}
+				break
+			}
+		}
+		for _, g := range guards {
+			n++
+			key := fmt.Sprintf("ygot.orderedMapKeysMergeable:accept#%d", n)
+			txt := types.ExprString(g)
+			switch {
+			case strings.Contains(txt, "len("):
+				r.OK(key, c.Pos(g.Pos()), "every key of src matched in order: "+txt)
+			default:
+				// a boolean local assigned false inside a loop over the src keys on a hit.
+				good := false
+				if obj := ObjOf(info, g); obj != nil {
+					ast.Inspect(f.Decl.Body, func(y ast.Node) bool {
+						loop, ok := y.(*ast.RangeStmt)
+						if !ok {
+							return true
+						}
+						ast.Inspect(loop.Body, func(z ast.Node) bool {
+							if as, ok := z.(*ast.AssignStmt); ok && len(as.Lhs) == 1 && ObjOf(info, as.Lhs[0]) == obj && constName(info, as.Rhs[0]) == "false" {
+								good = true
+							}
+							return true
+						})
+						return true
+					})
+				}
+				r.Check(good, key, c.Pos(g.Pos()), "disjointness established by a loop over the keys of src",
+					"orderedMapKeysMergeable accepts the merge under "+txt+", which does not establish that no key of src is a key of dst: [a b] + [x b] is merged into [a b x] although the lists overlap in b and src is not a subset of dst")
+			}
+		}
+	}
+	if n == 0 {
+		r.Und("ygot.orderedMapKeysMergeable:accept", c.Pos(f.Decl.Pos()), "no guarded success return found")
+	}
+}
